@@ -4,36 +4,56 @@
 
 // failed check (?): 
 #[test]
-fn kani_concrete_playback_pred_10462911906174863612() {
+fn kani_concrete_playback_pred_17120656723970353417() {
     let concrete_vals: Vec<Vec<u8>> = vec![
-        // 0ul
-        vec![0, 0, 0, 0, 0, 0, 0, 0],
-        // 2ul
-        vec![2, 0, 0, 0, 0, 0, 0, 0],
-        // 2ul
-        vec![2, 0, 0, 0, 0, 0, 0, 0],
-        // 0
-        vec![0],
-        // 0ul
-        vec![0, 0, 0, 0, 0, 0, 0, 0],
-        // 4ul
-        vec![4, 0, 0, 0, 0, 0, 0, 0],
-    ];
-    kani::concrete_playback_run(concrete_vals, crate::c04::q::n2_u3::pred);
-}
-
-// failed check (?): 
-#[test]
-fn kani_concrete_playback_pred_629052200582962032() {
-    let concrete_vals: Vec<Vec<u8>> = vec![
-        // 3ul
-        vec![3, 0, 0, 0, 0, 0, 0, 0],
-        // 3ul
-        vec![3, 0, 0, 0, 0, 0, 0, 0],
         // 1ul
         vec![1, 0, 0, 0, 0, 0, 0, 0],
+        // 3ul
+        vec![3, 0, 0, 0, 0, 0, 0, 0],
+        // 3ul
+        vec![3, 0, 0, 0, 0, 0, 0, 0],
         // 1
         vec![1],
+        // 1ul
+        vec![1, 0, 0, 0, 0, 0, 0, 0],
+        // 5ul
+        vec![5, 0, 0, 0, 0, 0, 0, 0],
+    ];
+    kani::concrete_playback_run(concrete_vals, crate::c04::q::n2_u3::pred);
+}
+
+// failed check (?): 
+#[test]
+fn kani_concrete_playback_pred_13919700130146421995() {
+    let concrete_vals: Vec<Vec<u8>> = vec![
+        // 2ul
+        vec![2, 0, 0, 0, 0, 0, 0, 0],
+        // 2ul
+        vec![2, 0, 0, 0, 0, 0, 0, 0],
+        // 3ul
+        vec![3, 0, 0, 0, 0, 0, 0, 0],
+        // 0
+        vec![0],
+        // 2ul
+        vec![2, 0, 0, 0, 0, 0, 0, 0],
+        // 5ul
+        vec![5, 0, 0, 0, 0, 0, 0, 0],
+    ];
+    kani::concrete_playback_run(concrete_vals, crate::c04::q::n2_u3::pred);
+}
+
+// failed check (?): 
+#[test]
+fn kani_concrete_playback_pred_15173173200475310471() {
+    let concrete_vals: Vec<Vec<u8>> = vec![
+        // 3ul
+        vec![3, 0, 0, 0, 0, 0, 0, 0],
+        // 3ul
+        vec![3, 0, 0, 0, 0, 0, 0, 0],
+        // 2ul
+        vec![2, 0, 0, 0, 0, 0, 0, 0],
+        // 0
+        vec![0],
         // 3ul
         vec![3, 0, 0, 0, 0, 0, 0, 0],
     ];
@@ -42,18 +62,20 @@ fn kani_concrete_playback_pred_629052200582962032() {
 
 // failed check (?): 
 #[test]
-fn kani_concrete_playback_pred_395640629258967316() {
+fn kani_concrete_playback_pred_12693924397416707206() {
     let concrete_vals: Vec<Vec<u8>> = vec![
         // 0ul
         vec![0, 0, 0, 0, 0, 0, 0, 0],
         // 1ul
         vec![1, 0, 0, 0, 0, 0, 0, 0],
-        // 49ul
-        vec![49, 0, 0, 0, 0, 0, 0, 0],
+        // 72057594037927939ul
+        vec![3, 0, 0, 0, 0, 0, 0, 1],
         // 0
         vec![0],
         // 0ul
         vec![0, 0, 0, 0, 0, 0, 0, 0],
+        // 5ul
+        vec![5, 0, 0, 0, 0, 0, 0, 0],
     ];
     kani::concrete_playback_run(concrete_vals, crate::c04::q::n2_u3::pred);
 }
